@@ -21,19 +21,31 @@ inductive ArgTok where
   deriving Repr, DecidableEq, BEq, Inhabited
 
 /-- Outcome of `tinycss2.nth.parse_nth` (third-party, an oracle here): `None`, `(a, b)`, or an
-exception (tinycss2 1.5 raises `AttributeError` on a trailing sign such as `2n+`). -/
+exception of class `cls` (tinycss2 1.5 raises `AttributeError` on a trailing sign such as `2n+`). -/
 inductive NthRes where
   | none
   | val (a b : Int)
-  | raised
+  | raised (cls : String)
   deriving Repr, DecidableEq, BEq, Inhabited
 
-/-- Three-valued result of the parser: a value, `return None`, or an exception of the oracle. -/
+/-- Three-valued result of the parser: a value, `return None`, or an exception (class `cls`) of the
+oracle that `parse_page_selectors` does not catch. -/
 inductive PRes (α : Type) where
   | ok (a : α)
   | reject
-  | raised
+  | raised (cls : String)
   deriving Repr, BEq, Inhabited
+
+/-- `except (AttributeError, ValueError):` around `tinycss2.nth.parse_nth(nth)` (repair 9ef10c8). -/
+def nthCaught (cls : String) : Bool := cls == "AttributeError" || cls == "ValueError"
+
+/-- `try: nth_values = parse_nth(nth) / except (AttributeError, ValueError): return None /
+if nth_values is None: return None` on one entry of the oracle table (`none` = index out of the table). -/
+def nthValues (e : Option NthRes) : PRes (Int × Int) :=
+  match e with
+  | some (.val a b) => .ok (a, b)
+  | some (.raised cls) => if nthCaught cls then .reject else .raised cls
+  | _ => .reject
 
 /-- A top-level prelude token.  For a function block, `nthTable[k]` is
 `tinycss2.nth.parse_nth(arguments[:k])` for `k = 0 … len(arguments)` (oracle). -/
@@ -82,19 +94,19 @@ def parseNth (args : List ArgTok) (table : List NthRes) : PRes (Int × Int × Op
   | some i =>
     -- nth = function.arguments[:i - 1]  (Python slice: `[:-1]` when i = 0); group = arguments[i + 1:]
     let k := if i ≥ 1 then i - 1 else n - 1
-    match table[k]? with
-    | some (.val a b) =>
+    match nthValues table[k]? with
+    | .ok (a, b) =>
       let group := (args.drop (i + 1)).filter (fun t => match t with | .ws => false | .comment => false | _ => true)
       match group with
       | [.ident g] => .ok (a, b, some g)
       | _ => .reject
-    | some .raised => .raised
-    | _ => .reject
+    | .raised cls => .raised cls
+    | .reject => .reject
   | none =>
-    match table[n]? with
-    | some (.val a b) => .ok (a, b, none)
-    | some .raised => .raised
-    | _ => .reject
+    match nthValues table[n]? with
+    | .ok (a, b) => .ok (a, b, none)
+    | .raised cls => .raised cls
+    | .reject => .reject
 
 /-- The inner `while tokens:` loop.  `none` is `return None`; otherwise the selector built so far
 and the tokens left (non-empty exactly when the loop was left by `break` on a comma). -/
@@ -116,7 +128,7 @@ def parseInner : List Tok → Sel → PRes (Sel × List Tok)
       else
         match parseNth args table with
         | .reject => .reject
-        | .raised => .raised
+        | .raised cls => .raised cls
         | .ok (a, b, group) =>
           let types := bump1 { types with index := some (a, b, group) }
           -- `if group:` (a non-empty identifier)
@@ -143,7 +155,7 @@ def parseOuter : Nat → List Tok → List Sel → PRes (List Sel)
     else
       match parseInner tokens types with
       | .reject => .reject
-      | .raised => .raised
+      | .raised cls => .raised cls
       | .ok (types, rest) =>
         if rest.isEmpty then .ok (acc ++ [types]) else parseOuter fuel rest (acc ++ [types])
 
